@@ -190,12 +190,12 @@ Qed.
 Lemma pop_back_sub h x : In x (hq (pop_back h)) -> In x (hq h).
 Proof. unfold pop_back. simpl. apply in_removelast. Qed.
 Lemma pop_back_len h : length (hq (pop_back h)) = (length (hq h) - 1)%nat.
-Proof. unfold pop_back. simpl. destruct (hq h) as [|a l]; [reflexivity|]. rewrite removelast_length_compat; [|discriminate]. simpl. lia. Qed.
+Proof. unfold pop_back. simpl. rewrite removelast_firstn_len, firstn_length. lia. Qed.
 
 Lemma pop_front_sub tsf0 h : forall x, In x (hq (fst (pop_front tsf0 h))) -> In x (hq h).
 Proof.
   intros x. unfold pop_front. destruct (hq h) as [|ret q] eqn:E.
-  - simpl. auto.
+  - simpl. rewrite E. auto.
   - rewrite <- E. destruct (Nat.eqb (length (hq h)) 1) eqn:E1; cbn [fst set_idx hq].
     + apply pop_back_sub.
     + set (h2 := pop_back (update_node h 0 (last (hq h) 0%nat))).
@@ -209,33 +209,531 @@ Qed.
 Lemma pop_sub tsf0 h t : forall x, In x (hq (fst (pop tsf0 h t))) -> In x (hq h).
 Proof.
   intros x. unfold pop.
-  destruct (hidx h t =? -1); simpl; auto.
-  destruct ((hidx h t <? 0) || (Z.of_nat (length (hq h)) <=? hidx h t)) eqn:Eb; simpl; auto.
+  destruct (hidx h t =? -1); [simpl; auto|].
+  destruct ((hidx h t <? 0) || (Z.of_nat (length (hq h)) <=? hidx h t)) eqn:Eb; [simpl; auto|].
   apply orb_false_iff in Eb. destruct Eb as [Eb1 Eb2].
   apply Z.ltb_ge in Eb1. apply Z.leb_gt in Eb2.
   set (i := Z.to_nat (hidx h t)).
   assert (Hi : (i < length (hq h))%nat) by (subst i; lia).
-  destruct (Nat.eqb i (length (hq h) - 1)); simpl.
-  { intros Hx. apply in_removelast in Hx. exact Hx. }
-  destruct (Nat.eqb (length (hq h)) 1) eqn:E1; simpl.
-  { intros Hx. apply in_removelast in Hx. exact Hx. }
+  destruct (Nat.eqb i (length (hq h) - 1)) eqn:Ei; [cbn [fst set_idx hq]; apply pop_back_sub|].
+  destruct (Nat.eqb (length (hq h)) 1) eqn:E1; [cbn [fst set_idx hq]; apply pop_back_sub|].
+  apply Nat.eqb_neq in Ei.
   set (h2 := pop_back (update_node h i (last (hq h) 0%nat))).
   assert (Hsub2 : forall y, In y (hq h2) -> In y (hq h)).
-  { intros y Hy. subst h2. unfold pop_back in Hy. simpl in Hy. apply in_removelast in Hy.
+  { intros y Hy. subst h2. apply pop_back_sub in Hy.
     apply update_node_sub in Hy. destruct Hy as [->|]; auto. apply last_in.
     intros Hn. rewrite Hn in Hi. simpl in Hi. lia. }
-  destruct (Nat.ltb i (length (hq h2))) eqn:Ei2.
-  - apply Nat.ltb_lt in Ei2.
-    pose proof (up_sub tsf0 h2 i Ei2) as [Hu1 Hu2].
-    destruct (up tsf0 h2 i) as [h3 m] eqn:Eu. simpl in Hu1, Hu2.
-    destruct m; simpl.
-    + intros Hx. auto.
-    + assert (Ei3 : (i < length (hq h3))%nat) by lia.
-      pose proof (down_sub tsf0 h3 i Ei3) as [Hd1 _].
-      intros Hx. auto.
-  - (* i out of range of h2: up/down are the identity on the list *)
-    apply Nat.ltb_ge in Ei2.
-    assert (Hlen : length (hq h2) = (length (hq h) - 1)%nat).
-    { subst h2. unfold pop_back. simpl. rewrite removelast_length_compat. now rewrite update_node_len. }
-    lia.
-Abort.
+  assert (Ei2 : (i < length (hq h2))%nat).
+  { subst h2. rewrite pop_back_len, update_node_len. lia. }
+  pose proof (up_sub tsf0 h2 i Ei2) as [Hu1 Hu2].
+  destruct (up tsf0 h2 i) as [h3 m] eqn:Eu. cbn [fst] in Hu1, Hu2.
+  destruct m; cbn [fst set_idx hq].
+  - intros Hx. auto.
+  - assert (Ei3 : (i < length (hq h3))%nat) by lia.
+    pose proof (down_sub tsf0 h3 i Ei3) as [Hd1 _].
+    intros Hx. auto.
+Qed.
+
+Lemma front_in h x : front h = Some x -> In x (hq h).
+Proof. unfold front. destruct (hq h); [discriminate|]. intros H. inversion H. now left. Qed.
+
+(* ---- the invariant ---------------------------------------------------------------------------- *)
+Record WF (s : state) : Prop := mkWF {
+  wf_wq : forall t q, In t (wqs s q) -> wqo (th s t) = Some q /\ st (th s t) = SLEEPING;
+  wf_rq : forall t v, In (Th t) (runq (vc s v)) ->
+            (st (th s t) = READY \/ st (th s t) = RUNNING) /\ vcp (th s t) = v;
+  wf_rqnd : forall v, NoDup (runq (vc s v));
+  wf_sb : forall x v, In x (sbq (vc s v)) -> st (th s x) = STANDBY /\ vcp (th s x) = v;
+  wf_sbnd : forall v, NoDup (sbq (vc s v));
+  wf_sl : forall x v, In x (hq (slq (vc s v))) -> vcp (th s x) = v /\ st (th s x) <> NEW
+}.
+
+(* the view of a state WF depends on *)
+Definition same_view (s s' : state) : Prop :=
+  (forall t, st (th s' t) = st (th s t) /\ vcp (th s' t) = vcp (th s t) /\ wqo (th s' t) = wqo (th s t)) /\
+  (forall v, runq (vc s' v) = runq (vc s v) /\ sbq (vc s' v) = sbq (vc s v) /\
+             (forall x, In x (hq (slq (vc s' v))) -> In x (hq (slq (vc s v))))) /\
+  (forall q, wqs s' q = wqs s q).
+
+Lemma WF_view s s' : same_view s s' -> WF s -> WF s'.
+Proof.
+  intros (Ht & Hv & Hq) W. constructor.
+  - intros t q H. rewrite Hq in H. destruct (Ht t) as (-> & _ & ->). now apply (wf_wq s W).
+  - intros t v H. destruct (Hv v) as (E & _ & _). rewrite E in H. destruct (Ht t) as (-> & -> & _). now apply (wf_rq s W).
+  - intros v. destruct (Hv v) as (-> & _ & _). apply (wf_rqnd s W).
+  - intros x v H. destruct (Hv v) as (_ & E & _). rewrite E in H. destruct (Ht x) as (-> & -> & _). now apply (wf_sb s W).
+  - intros v. destruct (Hv v) as (_ & -> & _). apply (wf_sbnd s W).
+  - intros x v H. destruct (Hv v) as (_ & _ & E). apply E in H. destruct (Ht x) as (-> & -> & _). now apply (wf_sl s W).
+Qed.
+
+Lemma same_view_refl s : same_view s s.
+Proof. repeat split; auto. Qed.
+Lemma same_view_trans s1 s2 s3 : same_view s1 s2 -> same_view s2 s3 -> same_view s1 s3.
+Proof.
+  intros (A1 & A2 & A3) (B1 & B2 & B3). split; [|split].
+  - intros t. destruct (A1 t) as (a & b & c), (B1 t) as (d & e & f). repeat split; congruence.
+  - intros v. destruct (A2 v) as (a & b & c), (B2 v) as (d & e & f). repeat split; try congruence. auto.
+  - intros q. now rewrite B3.
+Qed.
+
+(* thread-field updates that do not touch st / vcp / wqo *)
+Definition keeps (f : thr -> thr) : Prop :=
+  forall r, st (f r) = st r /\ vcp (f r) = vcp r /\ wqo (f r) = wqo r.
+Lemma view_updT s t f : keeps f -> same_view s (updT s t f).
+Proof.
+  intros K. split; [|split]; [|simpl; auto|simpl; auto].
+  intros x. rewrite th_updT. destruct (Nat.eqb_spec x t); [subst; apply K|auto].
+Qed.
+Definition vkeeps (g : vcpu -> vcpu) : Prop :=
+  forall r, runq (g r) = runq r /\ sbq (g r) = sbq r /\ (forall x, In x (hq (slq (g r))) -> In x (hq (slq r))).
+Lemma view_updV s v g : vkeeps g -> same_view s (updV s v g).
+Proof.
+  intros K. split; [|split]; [simpl; auto| |simpl; auto].
+  intros x. rewrite vc_updV. destruct (Nat.eqb_spec x v); [subst; apply K|auto].
+Qed.
+
+Lemma keeps_err v : keeps (fun r => t_err r v). Proof. intros r; auto. Qed.
+Lemma keeps_ts v : keeps (fun r => t_ts r v). Proof. intros r; auto. Qed.
+Lemma keeps_lk v : keeps (fun r => t_lk r v). Proof. intros r; auto. Qed.
+Lemma keeps_pc v : keeps (fun r => t_pc r v). Proof. intros r; auto. Qed.
+Lemma keeps_held v : keeps (fun r => t_held r v). Proof. intros r; auto. Qed.
+Lemma keeps_wk v : keeps (fun r => t_wk r v). Proof. intros r; auto. Qed.
+Lemma keeps_wkerr e w : keeps (fun r => t_wk (t_err r e) w). Proof. intros r; auto. Qed.
+Lemma keeps_fin : keeps (fun r => t_pc (t_opi (t_prog r (tl (prog r))) (S (opi r))) PIdle). Proof. intros r; auto. Qed.
+Lemma vkeeps_pend p : vkeeps (fun r => v_pend r p). Proof. intros r; auto. Qed.
+Lemma vkeeps_ipc p : vkeeps (fun r => v_ipc r p). Proof. intros r; auto. Qed.
+
+Lemma view_set_pc s t p : same_view s (set_pc s t p).
+Proof. apply view_updT, keeps_pc. Qed.
+Lemma view_set_held s t l b : same_view s (set_held s t l b).
+Proof. unfold set_held. apply view_updT. intros r; auto. Qed.
+Lemma view_finish s t a b : same_view s (finish_op s t a b).
+Proof.
+  unfold finish_op.
+  eapply same_view_trans; [|apply view_updT, keeps_fin]. repeat split; auto.
+Qed.
+Lemma view_lown s f : same_view s (s_lown s f).
+Proof. repeat split; auto. Qed.
+Lemma view_now s f : same_view s (s_now s f).
+Proof. repeat split; auto. Qed.
+
+Lemma WF_set_pc s t p : WF s -> WF (set_pc s t p).
+Proof. apply WF_view, view_set_pc. Qed.
+Lemma WF_set_held s t l b : WF s -> WF (set_held s t l b).
+Proof. apply WF_view, view_set_held. Qed.
+Lemma WF_finish s t a b : WF s -> WF (finish_op s t a b).
+Proof. apply WF_view, view_finish. Qed.
+Lemma WF_lown s f : WF s -> WF (s_lown s f).
+Proof. apply WF_view, view_lown. Qed.
+Lemma WF_updT s t f : keeps f -> WF s -> WF (updT s t f).
+Proof. intros K. apply WF_view, view_updT, K. Qed.
+Lemma WF_updV s v g : vkeeps g -> WF s -> WF (updV s v g).
+Proof. intros K. apply WF_view, view_updV, K. Qed.
+
+(* ---- blocks ------------------------------------------------------------------------------------ *)
+Ltac eqb_cases :=
+  repeat match goal with
+  | |- context [Nat.eqb ?a ?b] => destruct (Nat.eqb_spec a b); subst
+  | H : context [Nat.eqb ?a ?b] |- _ => destruct (Nat.eqb_spec a b); subst
+  end.
+
+Lemma not_sleeping_not_queued s t : WF s -> st (th s t) <> SLEEPING -> forall q, ~ In t (wqs s q).
+Proof. intros W H q Hi. apply (wf_wq s W) in Hi. tauto. Qed.
+
+Lemma runq_state s t v : WF s -> In (Th t) (runq (vc s v)) -> st (th s t) <> SLEEPING /\ st (th s t) <> STANDBY /\ st (th s t) <> NEW /\ st (th s t) <> DONE.
+Proof. intros W H. apply (wf_rq s W) in H. destruct H as [[H|H] _]; rewrite H; repeat split; discriminate. Qed.
+
+(* changing READY <-> RUNNING of a thread in a run queue *)
+Lemma WF_set_rr s t v ns : WF s -> In (Th t) (runq (vc s v)) -> ns = READY \/ ns = RUNNING ->
+  WF (updT s t (fun r => t_st r ns)).
+Proof.
+  intros W Hin Hns. pose proof (runq_state s t v W Hin) as (N1 & N2 & N3 & N4).
+  constructor; simpl.
+  - intros y q H. unfold updf. destruct (Nat.eqb_spec y t); subst.
+    + exfalso. eapply not_sleeping_not_queued; eauto.
+    + now apply (wf_wq s W).
+  - intros y v' H. unfold updf. destruct (Nat.eqb_spec y t); subst; simpl.
+    + split; [tauto|]. apply (wf_rq s W) in H. tauto.
+    + now apply (wf_rq s W).
+  - apply (wf_rqnd s W).
+  - intros y v' H. unfold updf. destruct (Nat.eqb_spec y t); subst; simpl.
+    + apply (wf_sb s W) in H. tauto.
+    + now apply (wf_sb s W).
+  - apply (wf_sbnd s W).
+  - intros y v' H. unfold updf. destruct (Nat.eqb_spec y t); subst; simpl; [|now apply (wf_sl s W)].
+    split; [now apply (wf_sl s W)|destruct Hns; congruence].
+Qed.
+
+Lemma WF_set_running s v : WF s -> WF (set_running s v).
+Proof.
+  intros W. unfold set_running. destruct (runq (vc s v)) as [|[t'|] r] eqn:E; auto.
+  eapply WF_set_rr; eauto. rewrite E. now left.
+Qed.
+
+Lemma in_snoc {A} (x e : A) l : In x (l ++ [e]) <-> In x l \/ x = e.
+Proof. rewrite in_app_iff. simpl. intuition. Qed.
+
+Lemma WF_rotate s v : WF s -> WF (rotate s v).
+Proof.
+  intros W. unfold rotate. destruct (runq (vc s v)) as [|e r] eqn:E; auto.
+  apply WF_set_running.
+  assert (W1 : WF (match e with Th t => updT s t (fun x => t_st x READY) | Idl => s end)).
+  { destruct e; auto. eapply WF_set_rr; eauto. rewrite E. now left. }
+  set (s1 := match e with Th t => updT s t (fun x => t_st x READY) | Idl => s end) in *.
+  assert (Evc : vc s1 = vc s) by (subst s1; destruct e; reflexivity).
+  pose proof (wf_rqnd s W v) as ND. rewrite E in ND.
+  constructor; simpl.
+  - apply (wf_wq s1 W1).
+  - intros y v' H. unfold updf in H. destruct (Nat.eqb_spec v' v); subst.
+    + simpl in H. apply (wf_rq s1 W1). rewrite Evc, E.
+      apply in_snoc in H. destruct H; [now right|subst; now left].
+    + now apply (wf_rq s1 W1).
+  - intros v'. unfold updf. destruct (Nat.eqb_spec v' v); subst; simpl.
+    + apply NoDup_cons_iff in ND. apply NoDup_snoc; tauto.
+    + apply (wf_rqnd s1 W1).
+  - intros y v' H. unfold updf in H. destruct (Nat.eqb_spec v' v); subst; now apply (wf_sb s1 W1).
+  - intros v'. unfold updf. destruct (Nat.eqb_spec v' v); subst; apply (wf_sbnd s1 W1).
+  - intros y v' H. unfold updf in H. destruct (Nat.eqb_spec v' v); subst; now apply (wf_sl s1 W1).
+Qed.
+
+(* sleep-queue replacement by a heap whose members come from the old one or belong to v *)
+Lemma WF_slq s v h' : WF s ->
+  (forall x, In x (hq h') -> In x (hq (slq (vc s v))) \/ (vcp (th s x) = v /\ st (th s x) <> NEW)) ->
+  WF (updV s v (fun r => v_slq r h')).
+Proof.
+  intros W Hs. constructor; simpl.
+  - apply (wf_wq s W).
+  - intros y v' H. unfold updf in H. destruct (Nat.eqb_spec v' v); subst; now apply (wf_rq s W).
+  - intros v'. unfold updf. destruct (Nat.eqb_spec v' v); subst; apply (wf_rqnd s W).
+  - intros y v' H. unfold updf in H. destruct (Nat.eqb_spec v' v); subst; now apply (wf_sb s W).
+  - intros v'. unfold updf. destruct (Nat.eqb_spec v' v); subst; apply (wf_sbnd s W).
+  - intros y v' H. unfold updf in H. destruct (Nat.eqb_spec v' v); subst.
+    + simpl in H. apply Hs in H. destruct H; auto. now apply (wf_sl s W).
+    + now apply (wf_sl s W).
+Qed.
+
+Ltac wq_cases :=
+  repeat match goal with
+  | |- context [wq_eqb ?a ?b] => destruct (wq_eqb_spec a b); subst
+  | H : context [wq_eqb ?a ?b] |- _ => destruct (wq_eqb_spec a b); subst
+  end.
+
+(* prepare_usleep *)
+Lemma WF_prepare_usleep s v t r q e : WF s -> runq (vc s v) = Th t :: r ->
+  WF (prepare_usleep s v t q e).
+Proof.
+  intros W E. unfold prepare_usleep.
+  assert (Hin : In (Th t) (runq (vc s v))) by (rewrite E; now left).
+  pose proof (wf_rq s W t v Hin) as [Hst Hvc].
+  pose proof (runq_state s t v W Hin) as (N1 & N2 & N3 & N4).
+  pose proof (wf_rqnd s W v) as ND. rewrite E in ND. apply NoDup_cons_iff in ND. destruct ND as [ND1 ND2].
+  apply WF_set_running.
+  match goal with |- WF (updV ?s3 v _) => set (S3 := s3) end.
+  assert (Hrq : forall v', runq (vc S3 v') = if Nat.eqb v' v then r else runq (vc s v')).
+  { intros v'; subst S3; destruct q; simpl; unfold updf; destruct (Nat.eqb_spec v' v); subst; simpl; rewrite ?E; reflexivity. }
+  assert (Hsb : forall v', sbq (vc S3 v') = sbq (vc s v')).
+  { intros v'; subst S3; destruct q; simpl; unfold updf; destruct (Nat.eqb_spec v' v); subst; simpl; reflexivity. }
+  assert (Hsl : forall v', slq (vc S3 v') = slq (vc s v')).
+  { intros v'; subst S3; destruct q; simpl; unfold updf; destruct (Nat.eqb_spec v' v); subst; simpl; reflexivity. }
+  assert (Hth : forall y, y <> t -> th S3 y = th s y).
+  { intros y Hy; subst S3; destruct q; simpl; unfold updf; apply Nat.eqb_neq in Hy; rewrite ?Hy; reflexivity. }
+  assert (Ht : st (th S3 t) = SLEEPING /\ vcp (th S3 t) = v /\
+               wqo (th S3 t) = match q with Some w => Some w | None => wqo (th s t) end).
+  { subst S3; destruct q; simpl; unfold updf; rewrite ?Nat.eqb_refl; simpl; auto. }
+  assert (Hwq : forall w, wqs S3 w = if match q with Some w0 => wq_eqb w w0 | None => false end then wqs s w ++ [t] else wqs s w).
+  { intros w; subst S3; destruct q; simpl; unfold updq; [destruct (wq_eqb_spec w w0); subst|]; reflexivity. }
+  destruct Ht as (Ht1 & Ht2 & Ht3).
+  assert (W3 : WF S3).
+  { constructor.
+    - intros y w H. rewrite Hwq in H.
+      destruct q as [w0|]; [destruct (wq_eqb_spec w w0); subst|].
+      + apply in_snoc in H. destruct H as [H|H].
+        * pose proof (wf_wq s W y w0 H) as [A B].
+          assert (y <> t) by congruence. rewrite Hth; auto.
+        * subst. rewrite Ht1, Ht3. auto.
+      + pose proof (wf_wq s W y w H) as [A B]. assert (y <> t) by congruence. rewrite Hth; auto.
+      + pose proof (wf_wq s W y w H) as [A B]. assert (y <> t) by congruence. rewrite Hth; auto.
+    - intros y v' H. rewrite Hrq in H.
+      assert (H1 : In (Th y) (runq (vc s v')) /\ y <> t).
+      { destruct (Nat.eqb_spec v' v); subst.
+        - rewrite E. split; [now right|]. intros ->. auto.
+        - split; auto. intros ->. apply (wf_rq s W) in H. destruct H as [_ H]. congruence. }
+      destruct H1 as [H1 H2]. rewrite Hth; auto. now apply (wf_rq s W).
+    - intros v'. rewrite Hrq. destruct (Nat.eqb_spec v' v); subst; auto. apply (wf_rqnd s W).
+    - intros y v' H. rewrite Hsb in H. pose proof (wf_sb s W y v' H) as [A B].
+      assert (y <> t) by congruence. rewrite Hth; auto.
+    - intros v'. rewrite Hsb. apply (wf_sbnd s W).
+    - intros y v' H. rewrite Hsl in H. pose proof (wf_sl s W y v' H) as [A B].
+      destruct (Nat.eq_dec y t); subst; [split; congruence|]. rewrite Hth; auto. }
+  apply WF_slq; auto.
+  intros x Hx. apply push_sub in Hx. destruct Hx as [->|Hx]; [right; split; [auto|congruence]|left; auto].
+Qed.
+
+(* a thread x that is in no run queue and no stand-by queue becomes READY at the tail of its
+   vCPU's run queue, or STANDBY at the tail of its vCPU's stand-by queue, leaving its wait queue *)
+Lemma WF_wake_char s x S' newst :
+  WF s ->
+  (st (th s x) = SLEEPING \/ (st (th s x) = STANDBY /\ forall v, ~ In x (sbq (vc s v)))) ->
+  (forall y, y <> x -> st (th S' y) = st (th s y) /\ vcp (th S' y) = vcp (th s y) /\ wqo (th S' y) = wqo (th s y)) ->
+  st (th S' x) = newst -> vcp (th S' x) = vcp (th s x) ->
+  (forall q y, In y (wqs S' q) <-> In y (wqs s q) /\ y <> x) ->
+  (forall v y, In y (hq (slq (vc S' v))) -> In y (hq (slq (vc s v)))) ->
+  ((newst = READY /\
+    (forall v, runq (vc S' v) = if Nat.eqb v (vcp (th s x)) then runq (vc s v) ++ [Th x] else runq (vc s v)) /\
+    (forall v, sbq (vc S' v) = sbq (vc s v)))
+   \/
+   (newst = STANDBY /\
+    (forall v, runq (vc S' v) = runq (vc s v)) /\
+    (forall v, sbq (vc S' v) = if Nat.eqb v (vcp (th s x)) then sbq (vc s v) ++ [x] else sbq (vc s v)))) ->
+  WF S'.
+Proof.
+  intros W Hx Hoth Hst Hvc Hwq Hsl Hcase.
+  assert (Nrq : forall v, ~ In (Th x) (runq (vc s v))).
+  { intros v H. apply (wf_rq s W) in H. destruct H as [[H|H] _], Hx as [Hx|[Hx _]]; congruence. }
+  assert (Nsb : forall v, ~ In x (sbq (vc s v))).
+  { intros v H. destruct Hx as [Hx|[_ Hx]]; [|now apply (Hx v)]. apply (wf_sb s W) in H. destruct H; congruence. }
+  constructor.
+  - intros y q H. apply Hwq in H. destruct H as [H Hy]. destruct (Hoth y Hy) as (-> & _ & ->). now apply (wf_wq s W).
+  - intros y v H. destruct Hcase as [(Hn & Hr & _)|(Hn & Hr & _)]; rewrite Hr in H.
+    + destruct (Nat.eqb_spec v (vcp (th s x))); subst.
+      * apply in_snoc in H. destruct H as [H|H].
+        -- assert (y <> x) by (intros ->; eapply Nrq; eauto).
+           destruct (Hoth y H0) as (-> & -> & _). now apply (wf_rq s W).
+        -- inversion H; subst. rewrite Hvc. auto.
+      * assert (y <> x) by (intros ->; eapply Nrq; eauto).
+        destruct (Hoth y H0) as (-> & -> & _). now apply (wf_rq s W).
+    + assert (y <> x) by (intros ->; eapply Nrq; eauto).
+      destruct (Hoth y H0) as (-> & -> & _). now apply (wf_rq s W).
+  - intros v. destruct Hcase as [(Hn & Hr & _)|(Hn & Hr & _)]; rewrite Hr.
+    + destruct (Nat.eqb_spec v (vcp (th s x))); subst; [|apply (wf_rqnd s W)].
+      apply NoDup_snoc; [apply (wf_rqnd s W)|apply Nrq].
+    + apply (wf_rqnd s W).
+  - intros y v H. destruct Hcase as [(Hn & _ & Hr)|(Hn & _ & Hr)]; rewrite Hr in H.
+    + assert (y <> x) by (intros ->; eapply Nsb; eauto).
+      destruct (Hoth y H0) as (-> & -> & _). now apply (wf_sb s W).
+    + destruct (Nat.eqb_spec v (vcp (th s x))); subst.
+      * apply in_snoc in H. destruct H as [H|H].
+        -- assert (y <> x) by (intros ->; eapply Nsb; eauto).
+           destruct (Hoth y H0) as (-> & -> & _). now apply (wf_sb s W).
+        -- subst. rewrite Hvc. auto.
+      * assert (y <> x) by (intros ->; eapply Nsb; eauto).
+        destruct (Hoth y H0) as (-> & -> & _). now apply (wf_sb s W).
+  - intros v. destruct Hcase as [(Hn & _ & Hr)|(Hn & _ & Hr)]; rewrite Hr.
+    + apply (wf_sbnd s W).
+    + destruct (Nat.eqb_spec v (vcp (th s x))); subst; [|apply (wf_sbnd s W)].
+      apply NoDup_snoc; [apply (wf_sbnd s W)|apply Nsb].
+  - intros y v H. apply Hsl in H. apply (wf_sl s W) in H. destruct H as [H1 H2].
+    destruct (Nat.eq_dec y x); subst.
+    + rewrite Hvc. split; auto. destruct Hcase as [(-> & _)|(-> & _)]; discriminate.
+    + destruct (Hoth y n) as (-> & -> & _). auto.
+Qed.
+
+(* projections of dequeue *)
+Lemma dequeue_th_other s x ns y : y <> x -> th (dequeue s x ns) y = th s y.
+Proof.
+  intros H. unfold dequeue. destruct (wqo (th s x)); simpl; unfold updf; apply Nat.eqb_neq in H; now rewrite ?H.
+Qed.
+Lemma dequeue_th_x s x ns :
+  st (th (dequeue s x ns) x) = ns /\ vcp (th (dequeue s x ns) x) = vcp (th s x) /\
+  wqo (th (dequeue s x ns) x) = None \/ wqo (th (dequeue s x ns) x) = wqo (th s x) /\ wqo (th s x) = None.
+Proof.
+  unfold dequeue. destruct (wqo (th s x)) eqn:E; simpl; unfold updf; rewrite ?Nat.eqb_refl; simpl; auto.
+Qed.
+Lemma dequeue_x s x ns :
+  st (th (dequeue s x ns) x) = ns /\ vcp (th (dequeue s x ns) x) = vcp (th s x) /\
+  wqo (th (dequeue s x ns) x) = None /\
+  err (th (dequeue s x ns) x) = err (th s x) /\ wk (th (dequeue s x ns) x) = wk (th s x) /\
+  lk (th (dequeue s x ns) x) = lk (th s x) /\ tpc (th (dequeue s x ns) x) = tpc (th s x) /\
+  held (th (dequeue s x ns) x) = held (th s x) /\ prog (th (dequeue s x ns) x) = prog (th s x) /\
+  ts (th (dequeue s x ns) x) = ts (th s x) /\ opi (th (dequeue s x ns) x) = opi (th s x).
+Proof.
+  unfold dequeue. destruct (wqo (th s x)) eqn:E; simpl; unfold updf; rewrite ?Nat.eqb_refl; simpl; rewrite ?Nat.eqb_refl; simpl; auto 20.
+Qed.
+Lemma dequeue_vc s x ns : vc (dequeue s x ns) = vc s.
+Proof. unfold dequeue. destruct (wqo (th s x)); reflexivity. Qed.
+Lemma dequeue_wqs s x ns : WF s -> forall q y, In y (wqs (dequeue s x ns) q) <-> In y (wqs s q) /\ y <> x.
+Proof.
+  intros W q y. unfold dequeue. destruct (wqo (th s x)) as [w|] eqn:E; simpl.
+  - unfold updq. destruct (wq_eqb_spec q w); subst.
+    + apply in_remove_iff.
+    + split; [|tauto]. intros H. split; auto. intros ->. apply (wf_wq s W) in H. destruct H. congruence.
+  - split; [|tauto]. intros H. split; auto. intros ->. apply (wf_wq s W) in H. destruct H. congruence.
+Qed.
+Lemma dequeue_misc s x ns : lown (dequeue s x ns) = lown s /\ now (dequeue s x ns) = now s /\
+  trace (dequeue s x ns) = trace s /\ lkd (dequeue s x ns) = lkd s /\ nvc (dequeue s x ns) = nvc s.
+Proof. unfold dequeue. destruct (wqo (th s x)); simpl; auto. Qed.
+
+Lemma th_rq_append s v x : th (rq_append s v x) = th s. Proof. reflexivity. Qed.
+Lemma th_updV s v f : th (updV s v f) = th s. Proof. reflexivity. Qed.
+Lemma wqs_rq_append s v x : wqs (rq_append s v x) = wqs s. Proof. reflexivity. Qed.
+Lemma wqs_updV s v f : wqs (updV s v f) = wqs s. Proof. reflexivity. Qed.
+Lemma wqs_updT s t f : wqs (updT s t f) = wqs s. Proof. reflexivity. Qed.
+Lemma vc_updT s t f : vc (updT s t f) = vc s. Proof. reflexivity. Qed.
+Lemma vc_rq_append s v x v' : vc (rq_append s v x) v' =
+  if Nat.eqb v' v then v_runq (vc s v) (runq (vc s v) ++ [Th x]) else vc s v'.
+Proof. reflexivity. Qed.
+
+Ltac proj := rewrite ?th_rq_append, ?th_updV, ?wqs_rq_append, ?wqs_updV, ?wqs_updT, ?vc_rq_append, ?vc_updV, ?vc_updT, ?dequeue_vc.
+
+Lemma WF_wake_by s va x : WF s -> st (th s x) = SLEEPING -> WF (wake_by s va x).
+Proof.
+  intros W Hs. unfold wake_by.
+  pose proof (dequeue_x s x) as Dx. pose proof (dequeue_wqs s x) as Dq.
+  destruct (Nat.eqb (vcp (th s x)) va).
+  - eapply (WF_wake_char s x _ READY).
+    + exact W.
+    + left; exact Hs.
+    + intros y Hy. proj. rewrite dequeue_th_other; auto.
+    + proj. apply Dx.
+    + proj. apply Dx.
+    + intros q y. proj. apply Dq; auto.
+    + intros v y. proj. destruct (Nat.eqb_spec v (vcp (th s x))); subst; simpl; proj; rewrite ?Nat.eqb_refl; simpl; auto. apply pop_sub.
+    + left. split; auto. split; intros v; proj;
+        destruct (Nat.eqb_spec v (vcp (th s x))); subst; simpl; proj; rewrite ?Nat.eqb_refl; simpl; auto.
+  - eapply (WF_wake_char s x _ STANDBY).
+    + exact W.
+    + left; exact Hs.
+    + intros y Hy. proj. rewrite dequeue_th_other; auto.
+    + proj. apply Dx.
+    + proj. apply Dx.
+    + intros q y. proj. apply Dq; auto.
+    + intros v y. proj. destruct (Nat.eqb_spec v (vcp (th s x))); subst; simpl; auto.
+    + right. split; auto. split; intros v; proj;
+        destruct (Nat.eqb_spec v (vcp (th s x))); subst; simpl; auto.
+Qed.
+
+(* the idler's time-out wake-up of the sleep-queue front *)
+Lemma WF_timeout s v x c : WF s -> front (slq (vc s v)) = Some x -> st (th s x) = SLEEPING ->
+  let s1 := updV s v (fun y => v_slq y (fst (pop_front (tsf s) (slq y)))) in
+  WF (updV (rq_append (updT (dequeue s1 x READY) x (fun y => t_wk y WTimeout)) v x) v (fun y => v_ipc y c)).
+Proof.
+  intros W Hf Hs s1.
+  assert (Hv : vcp (th s x) = v) by (apply (wf_sl s W), front_in; auto).
+  assert (W1 : WF s1).
+  { subst s1. apply WF_slq; auto. intros y Hy. left. now apply pop_front_sub in Hy. }
+  assert (Hs1 : st (th s1 x) = SLEEPING) by exact Hs.
+  pose proof (dequeue_x s1 x READY) as Dx. pose proof (dequeue_wqs s1 x READY W1) as Dq.
+  apply WF_updV; [apply vkeeps_ipc|].
+  eapply (WF_wake_char s1 x _ READY).
+  - exact W1.
+  - left; exact Hs1.
+  - intros y Hy. proj. rewrite th_updT_other; auto. rewrite dequeue_th_other; auto.
+  - proj. rewrite th_updT_same. simpl. apply Dx.
+  - proj. rewrite th_updT_same. simpl. apply Dx.
+  - intros y0 y. proj. apply Dq.
+  - intros v0 y. proj. destruct (Nat.eqb_spec v0 v); subst; simpl; auto.
+  - left. split; auto. change (vcp (th s1 x)) with (vcp (th s x)). rewrite Hv.
+    split; intros v0; proj; destruct (Nat.eqb_spec v0 v); subst; simpl; auto.
+Qed.
+
+(* one element of the stand-by batch *)
+Lemma WF_eject1 s v x : WF s -> st (th s x) = STANDBY -> vcp (th s x) = v -> (forall v', ~ In x (sbq (vc s v'))) ->
+  let s1 := updT s x (fun y => t_st y READY) in
+  let s2 := updV s1 v (fun y => v_slq y (fst (pop (tsf s1) (slq y) x))) in
+  WF (rq_append s2 v x).
+Proof.
+  intros W Hs Hv Hn s1 s2.
+  assert (Nq : forall q, ~ In x (wqs s q)).
+  { intros q H. apply (wf_wq s W) in H. destruct H; congruence. }
+  eapply (WF_wake_char s x _ READY).
+  - exact W.
+  - right; split; [exact Hs|exact Hn].
+  - intros y Hy. subst s2 s1. proj. rewrite th_updT_other; auto.
+  - subst s2 s1. proj. now rewrite th_updT_same.
+  - subst s2 s1. proj. now rewrite th_updT_same.
+  - intros q y. subst s2 s1. proj. split; [|tauto]. intros H. split; auto. intros ->. eapply Nq; eauto.
+  - intros v0 y. subst s2 s1. proj.
+    destruct (Nat.eqb_spec v0 v); subst; simpl; proj; rewrite ?Nat.eqb_refl; simpl; auto. apply pop_sub.
+  - left. split; auto. rewrite Hv.
+    split; intros v0; subst s2 s1; proj; destruct (Nat.eqb_spec v0 v); subst; simpl; proj; rewrite ?Nat.eqb_refl; simpl; auto.
+Qed.
+
+Lemma WF_eject v : forall l s cnt, WF s ->
+  (forall x, In x l -> st (th s x) = STANDBY /\ vcp (th s x) = v) -> NoDup l ->
+  (forall x, In x l -> forall v', ~ In x (sbq (vc s v'))) ->
+  WF (fst (eject s v l cnt)).
+Proof.
+  induction l as [|x r IH]; intros s cnt W Hl ND Hn; simpl; auto.
+  apply NoDup_cons_iff in ND. destruct ND as [ND1 ND2].
+  destruct (Hl x (or_introl eq_refl)) as [Hs Hv].
+  apply IH; auto.
+  - apply WF_eject1; auto. apply Hn. now left.
+  - intros y Hy. assert (y <> x) by (intros ->; auto).
+    proj. rewrite th_updT_other; auto. apply Hl. now right.
+  - intros y Hy v'. assert (y <> x) by (intros ->; auto).
+    proj. intros H'. apply (Hn y (or_intror Hy) v').
+    destruct (Nat.eqb_spec v' v); subst; simpl in H'; proj; rewrite ?Nat.eqb_refl in H'; simpl in H'; auto.
+Qed.
+
+Lemma eject_same s v l cnt : forall q, wqs (fst (eject s v l cnt)) q = wqs s q.
+Proof. revert s cnt. induction l as [|x r IH]; intros s cnt q; simpl; auto. rewrite IH. reflexivity. Qed.
+
+Lemma WF_sbq_nil s v : WF s -> WF (updV s v (fun y => v_sbq y [])).
+Proof.
+  intros W. constructor.
+  - apply (wf_wq s W).
+  - intros y v' H. proj. rewrite vc_updV in H. destruct (Nat.eqb_spec v' v); subst; now apply (wf_rq s W).
+  - intros v'. rewrite vc_updV. destruct (Nat.eqb_spec v' v); subst; apply (wf_rqnd s W).
+  - intros y v' H. rewrite vc_updV in H. destruct (Nat.eqb_spec v' v); subst; [destruct H|]. now apply (wf_sb s W).
+  - intros v'. rewrite vc_updV. destruct (Nat.eqb_spec v' v); subst; [constructor|apply (wf_sbnd s W)].
+  - intros y v' H. rewrite vc_updV in H. destruct (Nat.eqb_spec v' v); subst; now apply (wf_sl s W).
+Qed.
+
+(* thread_create of a NEW thread k on vCPU v *)
+Lemma WF_create s v k : WF s -> st (th s k) = NEW ->
+  WF (rq_append (updT s k (fun x => t_vcp (t_st x READY) v)) v k).
+Proof.
+  intros W Hs.
+  assert (Nq : forall q, ~ In k (wqs s q)) by (intros q H; apply (wf_wq s W) in H; destruct H; congruence).
+  assert (Nr : forall v', ~ In (Th k) (runq (vc s v'))) by (intros v' H; apply (wf_rq s W) in H; destruct H as [[H|H] _]; congruence).
+  assert (Ns : forall v', ~ In k (sbq (vc s v'))) by (intros v' H; apply (wf_sb s W) in H; destruct H; congruence).
+  constructor.
+  - intros y q H. proj. assert (y <> k) by (intros ->; eapply Nq; eauto). rewrite th_updT_other; auto. now apply (wf_wq s W).
+  - intros y v' H. proj. rewrite vc_rq_append in H. proj.
+    destruct (Nat.eqb_spec v' v); subst; simpl in H.
+    + apply in_snoc in H. destruct H as [H|H].
+      * assert (y <> k) by (intros ->; eapply Nr; eauto). rewrite th_updT_other; auto. now apply (wf_rq s W).
+      * inversion H; subst. rewrite th_updT_same. simpl. auto.
+    + assert (y <> k) by (intros ->; eapply Nr; eauto). rewrite th_updT_other; auto. now apply (wf_rq s W).
+  - intros v'. rewrite vc_rq_append. proj. destruct (Nat.eqb_spec v' v); subst; simpl; [|apply (wf_rqnd s W)].
+    apply NoDup_snoc; [apply (wf_rqnd s W)|apply Nr].
+  - intros y v' H. rewrite vc_rq_append in H. proj.
+    assert (H1 : In y (sbq (vc s v'))) by (destruct (Nat.eqb_spec v' v); subst; auto).
+    assert (y <> k) by (intros ->; eapply Ns; eauto). rewrite th_updT_other; auto. now apply (wf_sb s W).
+  - intros v'. rewrite vc_rq_append. proj. destruct (Nat.eqb_spec v' v); subst; simpl; apply (wf_sbnd s W).
+  - intros y v' H. rewrite vc_rq_append in H. proj.
+    assert (H1 : In y (hq (slq (vc s v')))) by (destruct (Nat.eqb_spec v' v); subst; auto).
+    pose proof (wf_sl s W y v' H1) as [A B].
+    assert (y <> k) by (intros ->; congruence). rewrite th_updT_other; auto.
+Qed.
+
+(* thread::die of the current thread t of v *)
+Lemma WF_die s v t r : WF s -> runq (vc s v) = Th t :: r ->
+  WF (set_running (updT (updV s v (fun x => v_runq x (tl (runq x)))) t (fun x => t_st x DONE)) v).
+Proof.
+  intros W E. apply WF_set_running.
+  assert (Hin : In (Th t) (runq (vc s v))) by (rewrite E; now left).
+  pose proof (wf_rq s W t v Hin) as [Hst Hvc].
+  pose proof (runq_state s t v W Hin) as (N1 & N2 & N3 & N4).
+  pose proof (wf_rqnd s W v) as ND. rewrite E in ND. apply NoDup_cons_iff in ND. destruct ND as [ND1 ND2].
+  constructor.
+  - intros y q H. proj. assert (y <> t) by (intros ->; eapply not_sleeping_not_queued; eauto).
+    rewrite th_updT_other; auto. now apply (wf_wq s W).
+  - intros y v' H. proj. rewrite vc_updV in H.
+    assert (H1 : In (Th y) (runq (vc s v')) /\ y <> t).
+    { destruct (Nat.eqb_spec v' v); subst; simpl in H.
+      - rewrite E in *. simpl in H. split; [now right|]. intros ->. auto.
+      - split; auto. intros ->. apply (wf_rq s W) in H. destruct H as [_ H]. congruence. }
+    destruct H1. rewrite th_updT_other; auto. now apply (wf_rq s W).
+  - intros v'. proj. rewrite vc_updV. destruct (Nat.eqb_spec v' v); subst; simpl; [rewrite E; auto|apply (wf_rqnd s W)].
+  - intros y v' H. proj. rewrite vc_updV in H.
+    assert (H1 : In y (sbq (vc s v'))) by (destruct (Nat.eqb_spec v' v); subst; auto).
+    pose proof (wf_sb s W y v' H1) as [A B]. assert (y <> t) by (intros ->; congruence).
+    rewrite th_updT_other; auto.
+  - intros v'. proj. rewrite vc_updV. destruct (Nat.eqb_spec v' v); subst; simpl; apply (wf_sbnd s W).
+  - intros y v' H. proj. rewrite vc_updV in H.
+    assert (H1 : In y (hq (slq (vc s v')))) by (destruct (Nat.eqb_spec v' v); subst; auto).
+    pose proof (wf_sl s W y v' H1) as [A B].
+    destruct (Nat.eq_dec y t); subst; [rewrite th_updT_same; simpl; split; [auto|discriminate]|rewrite th_updT_other; auto].
+Qed.
+
